@@ -555,8 +555,8 @@ class operators:
     _diff = ["order1", "order2"]
 
     E = virtual_operator(_operators.E, ["tau", "T1", "T2", "g"], [], _diff + _std)
-    P = virtual_operator(_operators.P, ["g"], [], _diff + _std)
-    R = virtual_operator(_operators.P, ["rT", "rL", "r0"], [], _diff + _std)
+    P = virtual_operator(_operators.P, ["tau", "g"], [], _diff + _std)
+    R = virtual_operator(_operators.R, ["rT", "rL"], ["r0"], _diff + _std)
     T = virtual_operator(_operators.T, ["alpha", "phi"], [], _diff + _std)
     Phi = virtual_operator(_operators.Phi, ["phi"], [], _diff + _std)
     S = virtual_operator(_operators.S, ["k"], [], _std)
@@ -565,14 +565,14 @@ class operators:
 
     # utilities
     Adc = virtual_operator(
-        _operators.Adc, [], ["phase", "weights"], ["attr", "reduce"] + _std
+        _operators.Adc, [], ["phase", "weights"], ["attr", "reduce", "name"]
     )
     Wait = virtual_operator(_operators.Wait, ["duration"], [], ["name"])
     Offset = virtual_operator(_operators.Offset, ["duration"], [], ["name"])
     Spoiler = virtual_operator(_operators.Spoiler, [], [], _std)
     PD = virtual_operator(_operators.PD, ["pd"], [], ["reset"] + _std)
     Reset = virtual_operator(_operators.Reset, [], [], _std)
-    System = virtual_operator(_operators.System, [], [], _std + [None])
+    System = virtual_operator(_operators.System, [], [], ["name", ...])
     Null = virtual_operator(_operators.EmptyOperator, [], [], _std)
 
     # default operators
